@@ -225,7 +225,7 @@ Definition step_allow (t : topo) (flags : N) (cpuset nodeset : option bset) : to
   else if negb (N.ldiff flags ALLOW_ALLFLAGS =? 0) then (t, RErr EINVAL)
   else if flags =? HWLOC_ALLOW_FLAG_ALL then
     match cpuset, nodeset with
-    | None, None => (set_allowed t (root_set t o_ccs) (root_set t o_cnds), RInt 0)
+    | None, None => (set_allowed t (root_set t o_cs) (root_set t o_nds), RInt 0)
     | _, _ => (t, RErr EINVAL)
     end
   else if flags =? HWLOC_ALLOW_FLAG_LOCAL_RESTRICTIONS then
@@ -234,22 +234,13 @@ Definition step_allow (t : topo) (flags : N) (cpuset nodeset : option bset) : to
     | _, _ => (t, RErr EINVAL)
     end
   else if flags =? HWLOC_ALLOW_FLAG_CUSTOM then
-    (* statement order of the C code: the cpuset is stored before the nodeset is examined *)
-    let after_cpu :=
-      match cpuset with
-      | Some c => if bs_intersects (root_set t o_cs) c then Some (bs_inter (root_set t o_cs) c) else None
-      | None => Some (m_acpu t)
-      end in
-    match after_cpu with
-    | None => (t, RErr EINVAL)
-    | Some ac =>
-        match nodeset with
-        | Some nd => if bs_intersects (root_set t o_nds) nd
-                     then (set_allowed t ac (bs_inter (root_set t o_nds) nd), RInt 0)
-                     else (set_allowed t ac (m_anode t), RErr EINVAL)
-        | None => (set_allowed t ac (m_anode t), RInt 0)
-        end
-    end
+    (* both sets are checked before anything is modified *)
+    let cpu_ok := match cpuset with Some c => bs_intersects (root_set t o_cs) c | None => true end in
+    let node_ok := match nodeset with Some nd => bs_intersects (root_set t o_nds) nd | None => true end in
+    if cpu_ok && node_ok then
+      (set_allowed t (match cpuset with Some c => bs_inter (root_set t o_cs) c | None => m_acpu t end)
+                     (match nodeset with Some nd => bs_inter (root_set t o_nds) nd | None => m_anode t end), RInt 0)
+    else (t, RErr EINVAL)
   else (t, RErr EINVAL).
 
 (* ------------------------------------------------------------------ *)
@@ -277,10 +268,15 @@ Definition add_children_sets (o : obj) : obj :=
                                (add_set (o_nds acc) (o_nds (odata c))) (add_set (o_cnds acc) (o_cnds (odata c)))) n d in
       Obj d' n m i x
   end.
-(* res->total_memory = sum over normal and memory children *)
-Definition recompute_tm (o : obj) : obj :=
+(* propagate_total_memory (topology.c): every object's total_memory recomputed bottom-up from the NUMA
+   nodes' local_memory, through normal and memory children (nothing under I/O or Misc) *)
+Fixpoint propagate_tm (o : obj) : obj :=
   match o with
-  | Obj d n m i x => Obj (set_tm d (sum_N (map (fun c => o_tm (odata c)) n) + sum_N (map (fun c => o_tm (odata c)) m))) n m i x
+  | Obj d n m i x =>
+      let n' := (fix go (l : list obj) : list obj := match l with [] => [] | c :: tl => propagate_tm c :: go tl end) n in
+      let m' := (fix go (l : list obj) : list obj := match l with [] => [] | c :: tl => propagate_tm c :: go tl end) m in
+      Obj (set_tm d (sum_N (map (fun c => o_tm (odata c)) n') + sum_N (map (fun c => o_tm (odata c)) m')
+                     + (if o_type d =? HWLOC_OBJ_NUMANODE then o_lm d else 0))) n' m' i x
   end.
 
 Definition group_dobj (t : topo) (g : gspec) (cs ccs nds cnds : option bset) : dobj :=
@@ -290,7 +286,7 @@ Definition gextra (g : gspec) : extra := mkExtra None (g_subtype g) [] (g_ud g) 
 
 (* post-insertion fix-up of the returned object (topology.c:2166-2182) *)
 Definition finish_group (r : obj) (res : N) : obj :=
-  map_gp res (fun o => recompute_tm (add_children_sets o)) r.
+  propagate_tm (map_gp res add_children_sets r).
 
 Definition step_group (t : topo) (g : gspec) : topo * result :=
   (* alloc consumed one gp_index whatever happens next *)
@@ -337,16 +333,11 @@ Definition step_group (t : topo) (g : gspec) : topo * result :=
                     end
                 | None => (set_root t1 r', RObj into false)
                 end
-            | OReplaced into_new =>
-                (* the linked object now carries the payload (and gp_index, userdata) of the new Group *)
+            | OReplaced =>
+                (* the linked object now carries the payload (gp_index, userdata) of the new Group; it is returned *)
                 let ng := m_next_gp t in
-                if into_new
-                then (* the returned pointer is the zeroed struct: the fix-up runs on it, not on the linked object *)
-                  let t2 := set_root t1 r' in
-                  (set_extra t2 (put_extra (m_extra t2) ng (gextra g)), RObj (Some 0) true)
-                else
-                  let t2 := set_root t1 (finish_group r' ng) in
-                  (set_extra t2 (put_extra (m_extra t2) ng (gextra g)), RObj (Some ng) false)
+                let t2 := set_root t1 (finish_group r' ng) in
+                (set_extra t2 (put_extra (m_extra t2) ng (gextra g)), RObj (Some ng) false)
             end
         | _ => (* just merge root *) (t1, RObj (o_gp rd) false)
         end
